@@ -10,7 +10,8 @@ Import ListNotations.
 Local Open Scope N_scope.
 
 (** Erasure: the instrumented decoder returns exactly the result of the slice decoder
-    ([sz_ok]: every type that is not memory-zero-sized has 0 < size_of < 2^32). *)
+    ([sz_ok]: every type that is not memory-zero-sized has 0 < size_of - the meaning of
+    [mem_zst], compared with the real size_of on every run). *)
 Theorem C07_erasure :
   forall (sz : ty -> N) (c : cfg) (t : ty) (bs : bytes),
     sz_ok sz -> snd (cdec sz c t bs) = dec slice_reader c t bs.
@@ -31,15 +32,17 @@ Theorem C07_error_kind :
 Proof. exact (fun sz c t bs k m H => cdec_err_kind sz c t bs k m H). Qed.
 Print Assumptions C07_error_kind.
 
-(** The hypothesis on size_of is needed: at a multiple of 2^32 the cast to u32 gives 0. *)
-Theorem C07_hint_div0 : forall k hint : N, cautious (k * U32) hint = Panic P_DIV0.
+(** The hypothesis on size_of is needed: a zero-sized element divides by zero (every caller
+    refuses zero-sized elements first).  Before the fix recorded as F15 the size was truncated
+    to u32 first, and every multiple of 2^32 divided by zero as well. *)
+Theorem C07_hint_div0 : forall hint : N, cautious 0 hint = Panic P_DIV0.
 Proof. exact cautious_div0. Qed.
 Print Assumptions C07_hint_div0.
 
 (** [hint::cautious]: at most 4096 bytes worth of elements (one element if a single one is
     larger), never more elements than announced, at least one. *)
 Theorem C07_hint :
-  forall sz len : N, 0 < sz -> sz < U32 ->
+  forall sz len : N, 0 < sz ->
     exists c0, cautious sz len = Ok c0 /\ c0 * sz <= N.max 4096 sz /\ c0 <= N.max len 1 /\ 1 <= c0.
 Proof. exact cautious_spec. Qed.
 Print Assumptions C07_hint.
@@ -159,10 +162,12 @@ Example C07_ex_exact_capacity :
   {| max_request := 20; total_requested := 20; elems := 5; max_explicit := 20; conv_units := 0; conv_bytes := 0 |}.
 Proof. vm_compute. reflexivity. Qed.
 
-(** a size_of of 2^32 makes the transcribed cautious divide by zero: the hypothesis [sz_ok] is not vacuous *)
+(** a size_of of 0 makes cautious divide by zero: the hypothesis [sz_ok] is not vacuous; an element
+    of 2^32 (or 2^32 + 1) bytes is handled like any other large element: capacity 1 (F15) *)
 Example C07_ex_div0 :
-  fst (dec_cost (fun _ => 2 ^ 32) ex_cfg (TSeq SVec u32) ffff) = Panic P_DIV0.
-Proof. vm_compute. reflexivity. Qed.
+  fst (dec_cost (fun _ => 0) ex_cfg (TSeq SVec u32) ffff) = Panic P_DIV0 /\
+  cautious (2 ^ 32) 7 = Ok 1 /\ cautious (2 ^ 32 + 1) 4096 = Ok 1.
+Proof. vm_compute. repeat split; reflexivity. Qed.
 
 (** out of the family: Vec<RefCell<()>> is not refused by check_zst and its elements take no
     wire bytes: a 4-byte input announcing 1000 elements decodes 1000 elements *)
